@@ -9,7 +9,16 @@ import mdgen as M
 def gen_history(rng, n):
     """an evolving honest chain interleaved with adversarial offers; returns (T0, offers, tags)"""
     keys, th, ver = (0, 1), rng.choice((1, 2, 2)), 1
-    T0 = M.envelope(M.root_md(ver, keys, th), keys)
+    # some chains carry, next to "root", delegations whose names merely resemble it (file-name forms); their keys are NOT root keys
+    alias = rng.choice([None, None, "root.json", "1.root.json", "Root"])
+    alias_keys = (3,)
+
+    def mkroot(v, ks, t, **kw):
+        if alias is None:
+            return M.root_md(v, ks, t, **kw)
+        dl = {alias: M.delegation(alias_keys, 1), "root": M.delegation(ks, t), "key_mgr": M.delegation((4,), 1)}
+        return M.md("root", v, dl, **kw)
+    T0 = M.envelope(mkroot(ver, keys, th), keys)
     honest = [T0]
     offers, tags = [], []
     cur_keys, cur_th, cur_ver = keys, th, ver
@@ -19,7 +28,7 @@ def gen_history(rng, n):
             nk = tuple(sorted(rng.sample(range(4), rng.randint(1, 3))))
             nt = rng.randint(1, len(nk))
             signers = tuple(sorted(set(rng.sample(cur_keys, min(len(cur_keys), max(cur_th, 1)))) | set(rng.sample(nk, nt))))
-            U = M.envelope(M.root_md(cur_ver + 1, nk, nt), signers)
+            U = M.envelope(mkroot(cur_ver + 1, nk, nt), signers)
             offers.append(U); tags.append("honest")
             # the model decides; we track optimistically only if enough old signers (always true here)
             honest.append(U)
@@ -29,6 +38,10 @@ def gen_history(rng, n):
         elif r < 0.55:
             U = M.envelope(M.root_md(cur_ver + 2, cur_keys, cur_th), cur_keys)
             offers.append(U); tags.append("skip")
+        elif r < 0.60 and alias is not None:
+            # signed only by the keys listed under the look-alike name
+            U = M.envelope(mkroot(cur_ver + 1, alias_keys, 1), alias_keys)
+            offers.append(U); tags.append("look-alike-role-keys")
         elif r < 0.65:
             others = tuple(i for i in range(4) if i not in cur_keys) or (3,)
             U = M.envelope(M.root_md(cur_ver + 1, others, 1), others)
